@@ -1014,6 +1014,34 @@ def native_method(I, recv, name, args, kwargs, node):
             recv.arr = new
             recv.n = recv.n + xs.n
             return None
+        if name == "insert":
+            # list.insert(pos, v) at a symbolic position.  CPython clamps an out-of-range position instead of raising;
+            # the model covers 0 <= pos <= len only and makes that an obligation (fails closed otherwise).
+            pos = to_z3(args[0])
+            v = args[1]
+            v = to_z3(v) if not is_z3(v) else v
+            I.oblige("call-pre", "insert-position-in-range", z3.And(pos >= 0, pos <= recv.n))
+            new = z3.Array(I.fresh_name("ins"), z3.IntSort(), recv.arr.sort().range())
+            k = z3.Int(I.fresh_name("k"))
+            I.assume(z3.ForAll([k], z3.Implies(z3.And(0 <= k, k < pos), z3.Select(new, k) == z3.Select(recv.arr, k))))
+            I.assume(z3.Select(new, pos) == v)
+            I.assume(z3.ForAll([k], z3.Implies(z3.And(pos < k, k <= recv.n), z3.Select(new, k) == z3.Select(recv.arr, k - 1))))
+            recv.arr = new
+            recv.n = recv.n + 1
+            return None
+        if name == "pop" and len(args) == 1:
+            pos = to_z3(args[0])
+            if not I.decide(z3.And(pos >= -recv.n, pos < recv.n), "pop-index-in-bounds"):
+                I.raise_builtin("IndexError", node)
+            I.oblige("call-pre", "pop-position-non-negative", pos >= 0)   # negative positions are not modelled
+            out = z3.Select(recv.arr, pos)
+            new = z3.Array(I.fresh_name("pop"), z3.IntSort(), recv.arr.sort().range())
+            k = z3.Int(I.fresh_name("k"))
+            I.assume(z3.ForAll([k], z3.Implies(z3.And(0 <= k, k < pos), z3.Select(new, k) == z3.Select(recv.arr, k))))
+            I.assume(z3.ForAll([k], z3.Implies(z3.And(pos <= k, k < recv.n - 1), z3.Select(new, k) == z3.Select(recv.arr, k + 1))))
+            recv.arr = new
+            recv.n = recv.n - 1
+            return out
         if name == "__getitem__":
             return I.getitem(recv, args[0], node)
     raise OutsideSubset("method %s of %s" % (name, type(recv).__name__), node)
